@@ -74,6 +74,7 @@ fn check_history(cx: &mut Ctx, stmts: &[Stmt], model: &[String], origin: &str) -
     let mut reproduced = vec![];
     let script = render_script(stmts);
     let (real, outcome) = run_koto(&script, &[]);
+    cx.last_real = real.clone();
     let hist: Vec<String> = stmts.iter().map(|s| s.sexp()).collect();
     let key = hist.join(" ");
     cx.rep.case(&key, stmts.len() >= 3);
@@ -191,7 +192,7 @@ fn main() {
     rep.rule = "cases: (1) operation histories of 5-30 statements (create / alias through a second name, a function argument or a closure capture / mutate / observe / slice / copy / deep_copy), each compared step by step as a full canonical heap dump — distinct = distinct statement sequences, non-trivial = at least 3 statements; (2) all ordered pairs of a 76-value boundary pool for == != < > <= >= and ValueKey eq/hash/cmp, number triples for the float-law hypotheses, key lookups through real 1- and 21-entry maps — non-trivial = the two values differ; (3) random sort inputs (lists, (key, tag) pairs, tuples, maps) — non-trivial = at least 2 elements".into();
     let open: Vec<String> = rep.known_open().iter().filter_map(|e| e.get("id").and_then(|x| x.as_str()).map(|s| s.to_string())).collect();
     let drv = Driver::spawn(&args.driver);
-    let mut cx = Ctx { rep, drv, open, known_counts: Default::default(), k_fail: 0, d_fail: 0 };
+    let mut cx = Ctx { rep, drv, open, known_counts: Default::default(), last_real: vec![], k_fail: 0, d_fail: 0 };
 
     if let Some(p) = &args.replay {
         let v: J = serde_json::from_str(&std::fs::read_to_string(p).expect("replay file")).unwrap();
@@ -260,6 +261,11 @@ fn main() {
 
     // 1. value pools
     run_pairs(&mut cx);
+
+    // 1b. copy / deep_copy on heap graphs: all trees with few nodes, random deeper ones
+    let (max_nodes, n_random_trees) = if args.thorough() { (5, 2500) } else { (4, 150) };
+    run_trees(&mut cx, &mut rng, max_nodes, n_random_trees);
+    deep_limits(&mut cx);
 
     // 2. sorting
     let n_sorts = if args.thorough() { 6000 } else { 500 };
